@@ -328,7 +328,15 @@ func init() {
 		}
 		th, _ := core.NewThrottle(int(c20num(c, "attempts")), 100, 0, sb)
 		runs := 0
-		err := th.Submit(func() error { runs++; return nil })
+		// "ferr": the submitted function fails with an error of its own: that is its result (returned by Submit), not a reason to run it again
+		var ferr error
+		if c20bool(c, "ferr") {
+			ferr = fmt.Errorf("verif: the submitted function failed")
+		}
+		err := th.Submit(func() error { runs++; return ferr })
+		if ferr != nil && err == ferr {
+			err = nil
+		}
 		p, _ := th.Pending()
 		res := "other"
 		switch err {
@@ -464,11 +472,18 @@ func init() {
 		}
 		httpMu.Lock()
 		defer httpMu.Unlock()
-		core.HTTPBreakers[srv.URL] = b
-		defer delete(core.HTTPBreakers, srv.URL)
+		// "key": "uri" registers the breaker for the exact URI requested, "host" for the URI's host (host:port; every request
+		// to that host, whatever its path, is then guarded by it)
+		key, target := srv.URL, srv.URL
+		if k, _ := c["key"].(string); k == "host" {
+			key = strings.TrimPrefix(srv.URL, "http://")
+			target = srv.URL + "/some/path?x=1"
+		}
+		core.HTTPBreakers[key] = b
+		defer delete(core.HTTPBreakers, key)
 		var throttled, ok, other int
 		for i := 0; i < int(c20num(c, "n")); i++ {
-			res, err := core.HTTPRequest{Method: "GET", URI: srv.URL}.Do(ctx)
+			res, err := core.HTTPRequest{Method: "GET", URI: target}.Do(ctx)
 			switch {
 			case err == core.Throttled && res != nil && res.Status == 430:
 				throttled++
